@@ -1,9 +1,12 @@
 import JunoModel.C12.ProofsArith
+import JunoModel.Generated.Arith
 import JunoModel.C12.ProofsAbstract
 import JunoModel.C12.ProofsTrace
 import JunoModel.C12.ProofsFuel
 import JunoModel.C12.ProofsRefine
 import JunoModel.C12.ProofsNonVacuity
+import JunoModel.C12.ProofsNetwork
+import JunoModel.C12.ProofsNonVacuityNet
 /-!
 C12 — property theorems (statements only; the proofs are in `Proofs*.lean`).
 
@@ -26,23 +29,23 @@ theorem quorum_intersection (N : Nat) (h : 0 < N) :
     N + fN N < 2 * qN N ∧ qN N ≤ N ∧ 3 * fN N < N :=
   ⟨quorum_intersection_nat N h, qN_le N, (fN_floor N h).1⟩
 
-/-- The 64-bit code (`fU`, `qU`: Go `uint` arithmetic) computes exactly these formulas as long as
-`2*N` does not wrap. -/
-theorem thresholds_no_wrap (N : Nat) (h0 : 0 < N) (h : N < 2 ^ 63) :
+/-- The 64-bit code (`fU`, `qU`: Go `uint` arithmetic) computes exactly these formulas on the whole
+`uint64` range (since the repair 487454a `q = N - N/3` cannot wrap). -/
+theorem thresholds_no_wrap (N : Nat) (h0 : 0 < N) (h : N < 2 ^ 64) :
     fOf N = fN N ∧ qOf N = qN N :=
-  ⟨fOf_eq N h0 (by omega), qOf_eq N h⟩
+  ⟨fOf_eq N h0 h, qOf_eq N h⟩
 
-/- Full strength would be `∀ N < 2^64, 0 < N → N + fOf N < 2 * qOf N`. It is FALSE for the code as
-it is: `q` multiplies before dividing. Known finding
-`quorum-threshold-wraps-for-total-power-ge-2^63`; witness: -/
-theorem quorum_intersection_fails_at_2_63 : ¬ (2 ^ 63 + fOf (2 ^ 63) < 2 * qOf (2 ^ 63)) := by
-  rw [qOf_wraps]; omega
+/-- The model's thresholds ARE the code's: `fU`/`qU` equal the definitions that `/verif/gen`
+regenerates from `consensus/votecounter/vote_counter.go` on every run (a source edit of `f` or `q`
+makes this stop compiling; `Tie/Quorum.lean` proves quorum intersection over the regenerated
+definitions). -/
+theorem thresholds_are_the_regenerated_code (n : UInt64) :
+    fU n = Juno.Generated.vcF n ∧ qU n = Juno.Generated.vcQ n :=
+  ⟨rfl, rfl⟩
 
-/-- The overflow-free formula `q = N - N/3` of `proposed-fixes/C12-quorum-overflow.diff` equals
-`ceil(2N/3)` on the whole 64-bit range. -/
-theorem quorum_fixed_formula_correct (N : Nat) (h : N < 2 ^ 64) :
-    (qUFix (UInt64.ofNat N)).toNat = qN N :=
-  qUFix_eq N h
+/-- Regression witness for the repaired defect (fixed: 487454a): the former formula
+`d := 2N; q := d/3 (+1)` wrapped, `q(2^63) = 0`. -/
+theorem quorum_formula_before_fix_wrapped : qUOld (UInt64.ofNat (2 ^ 63)) = 0 := qUOld_wraps
 
 /-- Weighted quorum intersection: with Byzantine power at most `f`, two validator sets of power at
 least `q` share a CORRECT validator. -/
@@ -193,7 +196,7 @@ justified by the global history (`Sim.just`: its sender is Byzantine or really s
 quorum the vote counter reports is a quorum of the global history in the sense of `Abstract`
 (tally = power of the DISTINCT senders ≤ weight of the justified validators), and stored proposals
 were sent or come from a Byzantine proposer. Needs `EnvOK`: same powers/proposer/validity, validator
-list without duplicates, power 0 outside it, total power = sum < 2^63 (no wrap in `q`). -/
+list without duplicates, power 0 outside it, total power = sum < 2^64 (fits Go's `uint`). -/
 theorem vote_counter_sound (E : AEnv) (env : Env) (ok : EnvOK E env) (wf : E.WF) (s : Sys) (m : Machine)
     (hsim : Sim E env s m) : VCSound E s m :=
   Sim_sound E env ok wf s m hsim
@@ -237,6 +240,51 @@ theorem exec_commit_agrees (E : AEnv) (env : Env) (ok : EnvOK E env) (wf : E.WF)
   exact ⟨s', hr', hsim', hd, fun p' v' hp' hd' =>
     agreement_of_inv E wf s' (inv_reach E h0 s' hr') p' m.nodeAddr hp' hb q.height v' q.value hd' hd⟩
 
+/-! ## The composed system: executable machines inside the driver's loop, over an adversarial network
+
+`Net` (`ModelNetwork.lean`): every correct validator is a `DNode` = the executable machine + the
+position of `driver.Driver.listen` in its loop (`needStart`: at the loop head, next call is
+`ProcessStart(0)`; otherwise one event — any timeout, any deliverable message, a sync result — is
+fed and `needStart` becomes "the returned actions contain a Commit", exactly what `execute` reports).
+A message is deliverable iff its sender is Byzantine or the sender's machine broadcast it; it may be
+delivered any number of times, in any order, or never. Validator powers, thresholds and proposers
+may differ from height to height (`Env` is indexed by the height). Hypotheses (`NetOK`): Byzantine
+power ≤ f at every height, N > 0 (`WF`), and the `Validators`/`Application` every machine is given
+agree with the abstract environment (`EnvOK`). NO discipline hypothesis: it is proved. -/
+
+/-- **The driver's loop keeps the discipline**: whenever the driver is inside its inner loop (about
+to feed a timeout or a message) the state machine's height is started — so `ProcessTimeout` is
+never called on an unstarted height, which is the hypothesis of `no_double_vote` (and the situation
+of the lead `timeout_before_start_breaks_one_vote` cannot arise through `listen`). -/
+theorem driver_loop_keeps_discipline (N : NetEnv) (ok : NetOK N) (net : Net) (hr : NetReach N net)
+    (p : Addr) (hp : ¬ N.E.byz p) (hn : (net.node p).needStart = false) :
+    (net.node p).m.isHeightStarted = true :=
+  net_discipline N ok net hr p hp hn
+
+/-- **Agreement for the network of executable machines**, all schedules, all Byzantine behaviours,
+across heights: two Commit actions ever emitted by the machines of two correct validators for the
+same height carry the same value. -/
+theorem network_agreement (N : NetEnv) (ok : NetOK N) (net : Net) (hr : NetReach N net)
+    (p p' : Addr) (hp : ¬ N.E.byz p) (hp' : ¬ N.E.byz p') (q q' : Proposal)
+    (hq : Action.commit q ∈ (net.node p).out) (hq' : Action.commit q' ∈ (net.node p').out)
+    (hh : q.height = q'.height) : q.value = q'.value :=
+  net_agreement N ok net hr p p' hp hp' q q' hq hq' hh
+
+/-- Every committed value is valid for the application and was proposed by the proposer of ITS
+height and round (per-height proposer schedule). -/
+theorem network_validity (N : NetEnv) (ok : NetOK N) (net : Net) (hr : NetReach N net)
+    (p : Addr) (hp : ¬ N.E.byz p) (q : Proposal) (hq : Action.commit q ∈ (net.node p).out) :
+    N.E.valid q.value = true ∧ q.sender = N.E.proposer q.height q.round :=
+  net_validity N ok net hr p hp q hq
+
+/-- A correct validator's machine never emits two different prevotes, nor two different precommits,
+for one height and round — in the composed system, without any assumption on the call order. -/
+theorem network_no_conflicting_votes (N : NetEnv) (ok : NetOK N) (net : Net) (hr : NetReach N net)
+    (p : Addr) (hp : ¬ N.E.byz p) (v v' : Vote) (hh : v.height = v'.height) (hrd : v.round = v'.round) :
+    (Action.bcastPrevote v ∈ (net.node p).out → Action.bcastPrevote v' ∈ (net.node p).out → v.id = v'.id) ∧
+    (Action.bcastPrecommit v ∈ (net.node p).out → Action.bcastPrecommit v' ∈ (net.node p).out → v.id = v'.id) :=
+  net_one_vote N ok net hr p hp v v' hh hrd
+
 /-! ## non-vacuity -/
 
 -- a disciplined run of the model that locks, commits and starts the next height
@@ -252,6 +300,9 @@ example : E4.WF := E4_wf
 example : ∃ s, Reach E4 (fun _ => 0) s ∧ s.hist.decision 0 0 8 := E4_run_decides
 -- the hypotheses of `exec_refines_abstract` are satisfiable: matching environments, initial simulation
 example : EnvOK E4 env4 := env4_ok
+example : NetOK N4 := ⟨E4_wf, fun _ => env4_ok⟩
+-- a reachable state of the composed system in which a machine has committed
+example : ∃ net, NetReach N4 net ∧ Action.commit ⟨0, 0, 0, -1, 8⟩ ∈ (net.node 0).out := N4_run_commits
 example : Sim E4 env4 (Sys.init (fun _ => 0)) (Machine.new env4 1 0) := Sim_init E4 env4 (fun _ => 0) 1
 -- thresholds
 example : fN 4 = 1 ∧ qN 4 = 3 ∧ fN 7 = 2 ∧ qN 7 = 5 ∧ fN 10 = 3 ∧ qN 10 = 7 := by decide
